@@ -17,7 +17,7 @@ from sx import runner  # noqa: E402
 
 PROPERTY = "C15"
 LEVEL = "model_checking"
-OPTIONS = {"quick": {"max_paths": 300000, "unit_budget_s": 600}, "thorough": {"max_paths": 3000000, "unit_budget_s": 3400}}
+OPTIONS = {"quick": {"max_paths": 300000, "unit_budget_s": 900}, "thorough": {"max_paths": 3000000, "unit_budget_s": 3400}}
 BOUNDS = {
     "quick": {"strings": "all strings of length <= 5 over U+0000..U+07FF plus length <= 3 over every code point (lone surrogates included)", "windows": "2 symbolic characters replacing / inserted at every position of 14 sentences", "regex": "attribute pattern vs RFC 4512, unbounded length"},
     "thorough": {"strings": "length <= 7 over U+0000..U+07FF, length <= 4 over every code point", "windows": "same + 3-character windows", "regex": "same"},
